@@ -76,6 +76,24 @@ def forbidden : List (List Lit) := [
   [.b aSameLabel false, .b aEstFp true, .b aGtFp true],
   [.b aSameLabel false, .b aEstUnknown true, .b aGtUnknown true]]
 
+/-- Valuations that stand for an IoU threshold OUTSIDE [0, 1] (`0 > thr` or `1 < thr` while the matching class is IOU2D /
+IOU3D; both for the threshold argument, base `cThr`, and for the radius looked up for the ground truth's label, base
+`cRadius`).  C01 ("when a maximum matchable radius is configured for the ground truth's label, only pairs objects closer
+than that radius") and C08 ("a result that is a TP at some matching threshold is still a TP at every looser threshold
+(larger distance, smaller IoU)") speak about thresholds of the mode's scale only; what the kernels do with an IoU
+threshold outside the scale (today: an assertion) is left open by the texts, so the per-run obligations of the tables of
+`is_better_than`, `is_result_correct`, `get_status` and the score-table cell are stated for valuations avoiding these
+conjunctions (`FORB_IOU` in harness/dt_match.py).  The distance classes are NOT affected: every clause carries the
+`mode.is(IOU*)` literal. -/
+def forbIoU : List (List Lit) := [
+  [.b (aMode 2) true, .c (cThr + 4) .gt], [.b (aMode 2) true, .c (cThr + 5) .lt],
+  [.b (aMode 3) true, .c (cThr + 4) .gt], [.b (aMode 3) true, .c (cThr + 5) .lt],
+  [.b (aMode 2) true, .c (cRadius + 4) .gt], [.b (aMode 2) true, .c (cRadius + 5) .lt],
+  [.b (aMode 3) true, .c (cRadius + 4) .gt], [.b (aMode 3) true, .c (cRadius + 5) .lt]]
+
+/-- the in-quantifier predicate on an optional threshold: if there is one, it lies on the mode's scale -/
+def thrOk (m : AP.Mode) (thr : Option Rat) : Prop := ∀ t, thr = some t → AP.thrValid m t = true
+
 /-! ## skeletons -/
 
 /-- distances (mode index 0, 1) are better when smaller, IoUs (2, 3) when larger; equality is never better -/
@@ -92,7 +110,8 @@ def tCompare (k cb : Nat) (optV : Bool) (kk : Bool → DTree) : DTree :=
   if optV then askB (aVNone k) fun vn => if vn then kk false else askC (cb + k) fun o => kk (passOrd k o)
   else askC (cb + k) fun o => kk (passOrd k o)
 
-/-- `is_better_than` of class `k`: the IoU classes assert `0 ≤ thr ≤ 1` first -/
+/-- `is_better_than` of class `k`: the IoU classes assert `0 ≤ thr ≤ 1` first (the two rejection leaves are reachable only
+under a conjunction of `forbIoU`: for the per-run check they are don't-care) -/
 def tBetter (k cb : Nat) (optV : Bool) (kk : Bool → DTree) : DTree :=
   if k < 2 then tCompare k cb optV kk else
   askC (cb + 4) fun o0 => if o0 == .gt then .leaf (.raise eAssert) else
